@@ -26,8 +26,8 @@ def gen(rng, count):
         steps = rng.randint(3, 12)
         shx = rng.uniform(-1, 1)
         box = [f32(-6 + shx), f32(6 + shx), f32(-6), f32(6), f32(1.2e-3), f32(6.11e5)]
-        if k % 3 == 2:
-            # position and energy axes with different cell sizes (a phase is a POSITION offset)
+        if k % 2 == 1:
+            # (both RF models: lin = k % 3 != 2) position and energy axes with different cell sizes (a phase is a POSITION offset)
             box[2], box[3] = f32(rng.choice([-3.0, -9.0])), f32(rng.choice([3.0, 12.0]))
         sps = rng.choice([50, 200, 1000])
         angle = f32(2 * math.pi / sps)
@@ -60,7 +60,7 @@ def gen(rng, count):
             e = box + [angle, f32(4.5e8), f32(9e6 / (8e3 * sps)), f32(1e6), f32(4.5e4), ps, as_, ma, mt]
             data = C.data_family(rng, n, nb, "gauss", 2)
             ops = ["A65530", "a", "a", "a", "a", "a", "a", "a", "a", "f"]
-        recs.append(dict(id=cid, n=n, nb=nb, lin=lin, steps=steps, mode=mode, ops=ops, modampl=ma, modtime=mt,
+        recs.append(dict(id=cid, n=n, nb=nb, lin=lin, steps=steps, mode=mode, ops=ops, modampl=ma, modtime=mt, qmin=box[0], qmax=box[1],
                          optext="dynrf %s %d %d %d %s %d\nextra %s\ndata %s\nops %s\nrun\n" % (
                              cid, n, it, nb, "lin" if lin else "sin", steps, " ".join(f2h(x) for x in e),
                              " ".join(f2h(x) for x in data), " ".join(ops))))
@@ -132,6 +132,25 @@ def oracle(rec, A):
                     return ("kicks %d and %d are recorded with the same phase and amplitudes %r, %r, but the applied "
                             "displacement fields have slope ratio %r" % (j, k, h2f(flushed[j][1]), h2f(flushed[k][1]),
                                                                          span(offs[k]) / span(offs[j]) if span(offs[j]) else None))
+        if rec["lin"] and "qmin" in rec:
+            # linear RF model: the field of step k is A_k (x0_k - x), it vanishes where the RF phase is the synchronous one.
+            # A recorded phase is an offset along the POSITION axis: between two steps the zero moves by
+            # (phase_j - phase_k) / (bl2phase * cell size of the position axis), bl2phase = qscale / c * f_RF * 2 pi
+            dxq = (rec["qmax"] - rec["qmin"]) / (n - 1)
+            bl2phase = 1.2e-3 / 299792458.0 * 4.5e8 * 2 * math.pi
+            zero = {}
+            for k, (ph, am) in enumerate(flushed):
+                slope = offs[k][0] - offs[k][1]
+                if abs(h2f(am)) >= 0.05 and slope != 0.0:
+                    zero[k] = (offs[k][0] / slope, h2f(ph))
+            ks = sorted(zero)
+            for k in ks[1:]:
+                j = ks[0]
+                want = (zero[j][1] - zero[k][1]) / (bl2phase * dxq)
+                got = zero[k][0] - zero[j][0]
+                if abs(got - want) > 2e-3 * abs(want) + 2e-3:
+                    return ("linear RF model: kicks %d and %d are recorded with phases %r and %r, their fields vanish %r cells apart, "
+                            "the phase difference is %r cells of the position axis" % (j, k, zero[j][1], zero[k][1], got, want))
         st = [d for o, d in ops if o == "s"]
         if st and rec["mode"] in ("zero", "ampl") and "off" in st[0]:
             so = [h2f(v) for v in st[0]["off"]]
